@@ -596,7 +596,7 @@ class Interp:
         return fn(a, b)
 
     def sv_cast(self, v, q):
-        if int_type(q) is None:
+        if int_type(q) is None or not self.sv_of(v):
             return v
         r = self.sv_map1(v, lambda x: wrap(x, q) if isinstance(x, int) else x)
         if isinstance(r, SV) and isinstance(v, Sym) and all(r.m[x] == x for x in r.m):
